@@ -11,6 +11,8 @@ import (
 	"path/filepath"
 	"sort"
 	"strings"
+	"sync"
+	"sync/atomic"
 	"testing"
 	"time"
 
@@ -284,6 +286,8 @@ func c06State(R *vr.Result, rng *rand.Rand, id string, sidx int) {
 			}
 		}
 	}
+	// concurrent requests: sessions of different identities checked at the same time must not be confused
+	w.concurrent(id, toks)
 	// a subset end-to-end through the real mux of newWebHandler (its own factory)
 	w.endToEnd(id)
 	R.Count("states", 1)
@@ -697,5 +701,92 @@ func (w *c06World) endToEnd(id string) {
 		if len(diff) > 0 {
 			w.restore()
 		}
+	}
+}
+
+
+// concurrent: an admin session and ordinary-user sessions (same plaintext length) are used in parallel;
+// an ordinary user's request must never be served with the admin's rights or another user's identity.
+func (w *c06World) concurrent(id string, toks map[string]*c06Tok) {
+	// fresh sessions sealed for equal-length plaintexts: "root:true:TS" / "bob:false:TS" / "Bob:false:TS"
+	admin := toks["root"]
+	var ord []*c06Tok
+	for _, n := range []string{"bob", "Bob", "alice", "carl"} {
+		if t := toks[n]; t != nil && t.Valid && !t.Admin {
+			ord = append(ord, t)
+		}
+	}
+	if admin == nil || len(ord) == 0 {
+		return
+	}
+	w.save()
+	var wg sync.WaitGroup
+	var mu sync.Mutex
+	leaks, changed, total := 0, 0, 0
+	first := ""
+	stop := int32(0)
+	for g := 0; g < 4; g++ { // admin traffic
+		wg.Add(1)
+		go func() {
+			defer wg.Done()
+			for atomic.LoadInt32(&stop) == 0 {
+				b, _ := json.Marshal(map[string]any{"session": admin.Text})
+				w.post(w.mux, "/api/list", b)
+			}
+		}()
+	}
+	rounds := vr.Pick(1500, 15000)
+	for g := 0; g < 8; g++ {
+		wg.Add(1)
+		go func(g int) {
+			defer wg.Done()
+			t := ord[g%len(ord)]
+			victim := "root"
+			for i := 0; i < rounds; i++ {
+				var code int
+				var m map[string]any
+				if i%2 == 0 {
+					b, _ := json.Marshal(map[string]any{"session": t.Text})
+					code, m, _, _ = w.post(w.mux, "/api/list", b)
+				} else {
+					b, _ := json.Marshal(map[string]any{"session": t.Text, "username": victim, "newpassword": "taken-over-pw"})
+					code, m, _, _ = w.post(w.mux, "/api/update", b)
+				}
+				mu.Lock()
+				total++
+				if code == 200 || m["list"] != nil {
+					leaks++
+					if first == "" {
+						first = fmt.Sprintf("session of ordinary user %s: request %d got status %d", t.User, i%2, code)
+					}
+				}
+				mu.Unlock()
+			}
+		}(g)
+	}
+	go func() {
+		// the admin goroutines stop when the ordinary ones are done
+	}()
+	done := make(chan struct{})
+	go func() { wg.Wait(); close(done) }()
+	for {
+		mu.Lock()
+		n := total
+		mu.Unlock()
+		if n >= 8*rounds {
+			atomic.StoreInt32(&stop, 1)
+			break
+		}
+		time.Sleep(5 * time.Millisecond)
+	}
+	<-done
+	if !w.authOK("root", w.model["root"].Pw) {
+		changed++
+	}
+	w.R.Case(id+"/concurrent", true)
+	w.R.Count("concurrent_requests", total)
+	if leaks > 0 || changed > 0 {
+		w.R.Violate("c06:concurrent-sessions-confused", fmt.Sprintf("%d of %d requests carrying an ordinary user's session succeeded on admin-only operations while an admin session was in use concurrently (root's password changed: %v); first: %s", leaks, total, changed > 0, first), id+"/concurrent", nil)
+		w.restore()
 	}
 }
